@@ -101,6 +101,15 @@ def gen_bstr(ctx):
         for a in strs:
             for b in strs:
                 cases.append("b\t%s\t%s\t%s" % (fn, vf.hexs(a), vf.hexs(b)))
+    # substring search with SELF-OVERLAPPING needles (a false partial match overlapping the real one: "aab" in "aaab"): every haystack up to
+    # length 6 over {a, A, b, NUL} against every needle up to length 3 over {a, b}, all three search functions
+    hs = list(vf.strings_upto([0x61, 0x41, 0x62, 0x00], 6 if not ctx.thorough() else 7))
+    ns = [n for n in vf.strings_upto([0x61, 0x62], 3) if len(n) >= 2]
+    for fn in ("idx", "idxnc", "idxnz"):
+        for n in ns:
+            for h in hs:
+                if len(h) > len(n):
+                    cases.append("b\t%s\t%s\t%s" % (fn, vf.hexs(h), vf.hexs(n)))
     for a in vf.strings_upto(ALPHA, 5):
         for c in (0x61, 0x41, 0x00):
             cases.append("b\tchr\t%s\t%d" % (vf.hexs(a), c))
